@@ -40,8 +40,8 @@ def rpy():
     return reservoirpy
 
 
-def fr(v):
-    return Fraction(v)
+def ff(v):
+    return float(Fraction(v))
 
 
 def farr(rows):
@@ -158,8 +158,8 @@ def run_readout(c):
 def run_ip(c):
     rpy()
     from reservoirpy.nodes import IPReservoir
-    node = IPReservoir(c["units"], activation=c["activation"], mu=float(c["mu"]), sigma=float(c["sigma"]),
-                       learning_rate=float(c["eta"]), epochs=c["epochs"], lr=float(c["lr"]),
+    node = IPReservoir(c["units"], activation=c["activation"], mu=ff(c["mu"]), sigma=ff(c["sigma"]),
+                       learning_rate=ff(c["eta"]), epochs=c["epochs"], lr=ff(c["lr"]),
                        W=farr(c["W"]), Win=farr(c["Win"]), bias=farr([[v] for v in c["bias"]]), name=uname("ip"))
     rec = []
     orig = node._forward
@@ -222,7 +222,7 @@ def nontrivial(c, o):
 
 def correspondence(ctx):
     rng = ctx.rng("corr")
-    cases = gen_cases(rng, ctx.n(100, 1000))
+    cases = gen_cases(rng, ctx.n(200, 1500))
     terms, keep, dist, nt = [], [], {}, set()
     for c in cases:
         try:
@@ -231,7 +231,12 @@ def correspondence(ctx):
             terms.append("false")
             keep.append({"scenario": jsonable(c), "impl_error": repr(e)})
             continue
-        terms.append(to_coq(c, o))
+        try:
+            terms.append(to_coq(c, o))
+        except ValueError as e:       # a non-finite observed value cannot be a Q literal: the model never produces one
+            terms.append("false")
+            keep.append({"scenario": jsonable(c), "impl_error": "non-finite observation: %r" % (e,)})
+            continue
         keep.append({"scenario": jsonable(c), "observed": jsonable(o)})
         tag = c["kind"] if c["kind"] == "ip" else "%s/%s" % (c["cls"], c["kind"])
         dist[tag] = dist.get(tag, 0) + 1
@@ -314,9 +319,6 @@ def _judge_readout(c):
                     al = Fraction(c["alpha"][cur]) if isinstance(c["alpha"], list) else Fraction(c["alpha"])
                     cur += 1
                     w = [[w[a][j] - al * (pred[j] - y[j]) * r[a] for j in range(m)] for a in range(n)]
-        if not close(ob["out"], exp_out):
-            return _viol("train:output-pre-update", "train call %d: returned outputs are not the predictions made with the weights "
-                         "held before each step's update" % ci, c, exp_out, ob["out"])
         wf = [[float(v) for v in row] for row in w]
         expW, expb = (wf[1:], wf[0]) if c["bias"] else (wf, [0.0] * m)
         if not (close(ob["W"], expW) and close(ob["b"], expb)):
@@ -333,6 +335,9 @@ def _judge_readout(c):
         elif ob["cur"] is not None and ob["cur"] != cur:
             return _viol("lms:schedule-cursor", "after train call %d the learning-rate iterator was advanced %d times for %d updates"
                          % (ci, ob["cur"], cur), c, cur, ob["cur"])
+        if not close(ob["out"], exp_out):
+            return _viol("train:output-pre-update", "train call %d: returned outputs are not the predictions made with the weights "
+                         "held before each step's update" % ci, c, exp_out, ob["out"])
     return None
 
 
@@ -364,8 +369,8 @@ def _judge_ip(c):
         o = run_ip(c)
     except Exception as e:
         return _viol("ip:exception", "valid IPReservoir.fit scenario raises %r" % (e,), c)
-    W, Win, bias = farr(c["W"]), farr(c["Win"]), np.array([float(v) for v in c["bias"]])
-    lr, mu, sigma, eta = float(c["lr"]), float(c["mu"]), float(c["sigma"]), float(c["eta"])
+    W, Win, bias = farr(c["W"]), farr(c["Win"]), np.array([ff(v) for v in c["bias"]])
+    lr, mu, sigma, eta = ff(c["lr"]), ff(c["mu"]), ff(c["sigma"]), ff(c["eta"])
     u_ = c["units"]
     a, b, s, r = np.ones(u_), np.zeros(u_), np.zeros(u_), np.zeros(u_)
     w = c["warmup"]
@@ -413,10 +418,10 @@ def judge(case):
 
 def oracle(ctx, scale=1):
     rng = ctx.rng("oracle")
-    cases = gen_cases(rng, ctx.n(120, 1200) * scale)
+    cases = gen_cases(rng, ctx.n(240, 2000) * scale)
     # every prefix of one sequence: the same data trained one step per call
     extra = []
-    for c in cases[:ctx.n(20, 100)]:
+    for c in cases[:ctx.n(40, 200)]:
         if c["kind"] == "rls":
             X = [x for call in c["calls"] for x in call["X"]]
             Y = [y for call in c["calls"] for y in call["Y"]]
